@@ -46,6 +46,7 @@ type World struct {
 	// constLenNames: callee name → constant length of its slice result (see funcConstLen)
 	constLenNames map[string]int64
 	globals       map[*ssa.Global]*globalBytes // see constfold.go
+	tWriters      map[*ssa.Global]string
 	gWriters      map[*ssa.Global][]string     // see stateless.go
 	clobber       *clobberSummary              // see noclobber.go
 	allSet        map[*ssa.Function]bool
@@ -132,6 +133,7 @@ func Load(repo, goos, goarch, tags string) (*World, error) {
 	}
 	sort.Slice(w.allFns, func(i, j int) bool { return FuncKey(w.allFns[i]) < FuncKey(w.allFns[j]) })
 	w.NFuncs = len(w.allFns)
+	w.computeSignatures()
 	return w, nil
 }
 
